@@ -9,13 +9,15 @@ package spec
 // roff(v, k): byte offset of the k-th character of v (characters are UTF-8 sequences of runeSz bytes)
 //@ ghost func roff(v string, k int) int
 //@ axiom forall v string :: {roff(v, 0)} roff(v, 0) == 0
-//@ axiom forall v string, k int :: {roff(v, k)} k > 0 ==> roff(v, k) == roff(v, k - 1) + runeSz(v, roff(v, k - 1))
+//@ axiom forall v string, k int :: {roff(v, k), runeSz(v, roff(v, k - 1))} k > 0 ==> roff(v, k) == roff(v, k - 1) + runeSz(v, roff(v, k - 1))
 // literalDFA(d, v): d is the chain 0 -c0-> 1 -c1-> ... -c(n-1)-> n over exactly the characters of v, accepting in n only
 //@ spec func literalDFA(d *auto.DFA, v string) bool = d != nil && d.chain && d.Start == 0 && roff(v, d.n) == len(v) && onlyState(d.Final) == d.n
 //@   && (forall k int :: {d.wsym[k]} 0 <= k && k < d.n ==> d.wsym[k] == runeAt(v, roff(v, k)))
 
 // unesc(v): v with every backslash escape replaced by the character it stands for (docs/6-design.md: "any character
 // can be escaped ... within a string"): the identity on strings without a backslash, strictly shorter otherwise.
+// plain(v): v contains no backslash
+//@ spec func plain(v string) bool = forall k int :: {v[k]} 0 <= k && k < len(v) ==> v[k] != '\\'
 //@ ghost func unesc(v string) string
 //@ axiom forall v string :: {unesc(v)} (forall k int :: {v[k]} 0 <= k && k < len(v) ==> v[k] != '\\') ==> unesc(v) == v
 //@ axiom forall v string, k int :: {unesc(v), v[k]} 0 <= k && k < len(v) && v[k] == '\\' ==> len(unesc(v)) < len(v)
@@ -23,9 +25,11 @@ package spec
 //@   fresh-result
 //@   loop[0] invariant d != nil && fresh(d) && d.chain && d.Start == 0 && d.n == __i0 && curr == __i0 && next == __i0 + 1 && __off0 == roff(value, __i0)
 //@   loop[0] invariant forall k int :: {d.wsym[k]} 0 <= k && k < __i0 ==> d.wsym[k] == runeAt(value, roff(value, k))
-//@   ensures @its-own-characters (forall k int :: {value[k]} 0 <= k && k < len(value) ==> value[k] != '\\') ==> literalDFA(result, value)
-// the property: a literal denotes its characters WITH BACKSLASH ESCAPES RESOLVED (unesc: the documented meaning)
-//@   ensures @escapes-resolved literalDFA(result, unesc(value))
+//@   ensures @its-own-characters plain(value) ==> literalDFA(result, value)
+//@   ensures result != nil
+// the property: a literal denotes its characters WITH BACKSLASH ESCAPES RESOLVED (unesc: the documented meaning);
+// not exported to callers (it does not hold: known finding)
+//@   internal ensures @escapes-resolved literalDFA(result, unesc(value))
 
 // validPattern(v): v is accepted by the pattern compiler (nfa.Parse); regexToDFA fails exactly on the others.
 //@ ghost func validPattern(v string) bool
@@ -53,7 +57,7 @@ package spec
 //@   requires s != nil && specWF(s)
 //@   callsite SelectMatch assumes @L-CALLBACK forall x *TerminalDef :: {selPred(box(arg1), box(x))} selPred(box(arg1), box(x)) == !x.IsRegex
 //@   loop[0] invariant errs != nil && fresh(errs) && errs.n >= 0 && len(ds) == len(s.Definitions)
-//@   loop[0] invariant forall k int :: {ds[k]} 0 <= k && k < __i0 && !s.Definitions[k].IsRegex ==> allocated(ds[k]) && literalDFA(ds[k], s.Definitions[k].Value)
+//@   loop[0] invariant forall k int :: {ds[k]} 0 <= k && k < __i0 && !s.Definitions[k].IsRegex ==> ds[k] != nil && allocated(ds[k]) && (plain(s.Definitions[k].Value) ==> literalDFA(ds[k], s.Definitions[k].Value))
 //@   loop[0] invariant forall k int :: {s.Definitions[k]} 0 <= k && k < __i0 && s.Definitions[k].IsRegex && !validPattern(s.Definitions[k].Value) ==> errs.n > 0
 //@   loop[0] invariant errs.n > 0 ==> (exists k int :: 0 <= k && k < __i0 && s.Definitions[k].IsRegex && !validPattern(s.Definitions[k].Value))
 //@   loop[1] invariant stateDefs != nil && (forall g auto.State, j int :: {stateDefs[g][j]} 0 <= j && j < len(stateDefs[g]) ==> stateDefs[g][j] != nil)
